@@ -329,7 +329,11 @@ def gen_server_plan(rng, prof=None):
                          # gateway suspends the writing task)
                          'slow_ws_write': rng.choice([0, 0, 0, 0, 1, 2, 4])
                          if server == 'asyncio' else 0,
-                         'legacy_disconnect': rng.random() < 0.12},
+                         'legacy_disconnect': rng.random() < 0.12,
+                         # (asyncio server: the framework cancels the task
+                         # serving a WebSocket whose connection is lost)
+                         'cancel_on_ws_loss': server == 'asyncio' and
+                         rng.random() < 0.3},
             'rng_seed': rng.randint(0, 2 ** 31)}
     return plan
 
